@@ -113,6 +113,11 @@ def one_run(chk, pv, h, thr, chunking, rng):
         chunks = [data]
     elif chunking == 'frame':
         chunks = frames
+    elif chunking == 'slow':
+        # every frame arrives in two pieces with a long pause between them (a slow or congested link)
+        chunks = []
+        for f in frames:
+            chunks += [f[:max(1, len(f) // 2)], sim.PAUSE, f[max(1, len(f) // 2):]]
     else:
         cuts = sorted(set(rng.randrange(1, len(data)) for _ in range(rng.randrange(1, 12))))
         chunks = [data[a:b] for a, b in zip([0] + cuts, cuts + [len(data)])]
@@ -144,7 +149,7 @@ def run(chk):
     plan = []
     for pv in sup:
         for _ in range(3 if th else 1):
-            plan.append((pv, rng.randrange(2, 25), rng.random() < 0.5, rng.choice([None, None, 0, 64, 256]), rng.choice(['whole', 'frame', 'random'])))
+            plan.append((pv, rng.randrange(2, 25), rng.random() < 0.5, rng.choice([None, None, 0, 64, 256]), rng.choice(['whole', 'frame', 'random', 'slow'])))
     for pv in ([47, 107, 340, 404, 498, 578, 736, 754, 757] if th else [47, 340, 757]):
         for n in ((60, 320, 700) if th else (60, 330)):
             plan.append((pv, n, rng.random() < 0.5, rng.choice([None, 256]), rng.choice(['whole', 'frame', 'random'])))
